@@ -242,11 +242,11 @@ theorem any_listenTable (ak : List Kind) (t : Kind) :
   simp [listenTable_diag]
 
 theorem invS_listen (s : Server) (sid id : Nat) (kinds : List Kind) (uris : List Nat) (h : InvS s) :
-    InvS (listen s sid id kinds uris).1 := by
+    InvS (listen s sid id kinds uris) := by
   unfold listen
   split
   · rename_i hguard
-    obtain ⟨hm, hok, hnd⟩ := hguard
+    obtain ⟨hm, hok, hnd, _⟩ := hguard
     have ok := listenOk_spec hok
     obtain ⟨a, b, c, d, e, f, g, i, j, k⟩ := h
     -- abbreviations
@@ -270,17 +270,13 @@ theorem invS_listen (s : Server) (sid id : Nat) (kinds : List Kind) (uris : List
       · obtain ⟨_, l0, hl0, h1, _, h3⟩ := g
         exact (ok l0 hl0 (by rw [h1, hs])).2.2 r.1 (hau_sub _ hu) h3
     simp only []
-    have hsub : ∀ l0 ∈ s.listens, l0 ∈ (if ak = [] ∧ au = [] then s.listens else s.listens ++ [⟨sid, id, ak, au⟩]) := by
-      intro l0 hl0; split; exact hl0; simp; exact Or.inl hl0
-    have hnew : (ak ≠ [] ∨ au ≠ []) → (⟨sid, id, ak, au⟩ : Listen) ∈ (if ak = [] ∧ au = [] then s.listens else s.listens ++ [⟨sid, id, ak, au⟩]) := by
-      intro hne; split
-      · rename_i h0; rcases hne with hne | hne; exact absurd h0.1 hne; exact absurd h0.2 hne
-      · simp
-    have hmem : ∀ l0, l0 ∈ (if ak = [] ∧ au = [] then s.listens else s.listens ++ [⟨sid, id, ak, au⟩]) →
+    have hsub : ∀ l0 ∈ s.listens, l0 ∈ s.listens ++ [(⟨sid, id, ak, au⟩ : Listen)] := by
+      intro l0 hl0; simp; exact Or.inl hl0
+    have hnew : (ak ≠ [] ∨ au ≠ []) → (⟨sid, id, ak, au⟩ : Listen) ∈ s.listens ++ [(⟨sid, id, ak, au⟩ : Listen)] := by
+      intro _; simp
+    have hmem : ∀ l0, l0 ∈ s.listens ++ [(⟨sid, id, ak, au⟩ : Listen)] →
         l0 ∈ s.listens ∨ l0 = ⟨sid, id, ak, au⟩ := by
-      intro l0 hl0; split at hl0
-      · exact Or.inl hl0
-      · simp at hl0; exact hl0
+      intro l0 hl0; simp at hl0; exact hl0
     refine ⟨a, ?_, ?_, ?_, ?_, ?_, ?_, ?_, ?_, ?_⟩
     · -- subs_listen
       intro t p hp
@@ -374,6 +370,49 @@ theorem invS_listen (s : Server) (sid id : Nat) (kinds : List Kind) (uris : List
       grind
   · exact h
 
+/-- The acknowledgement touches no table; a handler that was granted nothing leaves the record. -/
+theorem invS_listenAck (s : Server) (sid id : Nat) (h : InvS s) : InvS (listenAck s sid id).1 := by
+  unfold listenAck
+  split
+  · exact h
+  · rename_i l hfind
+    obtain ⟨hl, hsid, hid⟩ := find?_spec hfind
+    split
+    · exact h
+    · split
+      · rename_i hempty
+        obtain ⟨a, b, c, d, e, f, g, i, j, k⟩ := h
+        -- a record that mentions a kind or a URI is not the one that leaves
+        have keep : ∀ l0 ∈ s.listens, (l0.kinds ≠ [] ∨ l0.uris ≠ []) →
+            l0 ∈ s.listens.filter (fun l' => !(l'.sid == sid && l'.id == id)) := by
+          intro l0 hl0 hne
+          simp
+          refine ⟨hl0, ?_⟩
+          by_cases h1 : l0.sid = sid
+          · right
+            intro h2
+            have := f l0 hl0 l hl (by rw [h1, hsid]) (Or.inl (by rw [h2, hid]))
+            rw [this] at hne
+            rcases hne with hne | hne
+            · exact hne hempty.1
+            · exact hne hempty.2
+          · exact Or.inl h1
+        refine ⟨a, ?_, ?_, ?_, ?_, ?_, ?_, i, j, k⟩
+        · intro t p hp
+          obtain ⟨l0, hl0, h1, h2, h3⟩ := b t p hp
+          exact ⟨l0, keep l0 hl0 (Or.inl (by intro e; rw [e] at h3; simp at h3)), h1, h2, h3⟩
+        · intro l' hl'; simp at hl'; exact c l' hl'.1
+        · intro l' hl' x hx; simp at hl'; exact d l' hl'.1 x hx
+        · intro l' hl' x hx; simp at hl'; exact e l' hl'.1 x hx
+        · intro l1 h1 l2 h2; simp at h1 h2; exact f l1 h1.1 l2 h2.1
+        · intro r hr
+          rcases g r hr with g | g
+          · exact Or.inl g
+          · right
+            obtain ⟨g1, l0, hl0, h1, h2, h3⟩ := g
+            exact ⟨g1, l0, keep l0 hl0 (Or.inr (by intro e; rw [e] at h3; simp at h3)), h1, h2, h3⟩
+      · exact h.frame rfl (fun _ => rfl) rfl rfl rfl
+
 theorem invS_setK {s : Server} (k : Kind) (f : KState → KState) (hf : ∀ st, (f st).subs = st.subs)
     (h : InvS s) : InvS (setK s k f) := by
   refine h.frame rfl ?_ rfl rfl rfl
@@ -426,6 +465,7 @@ theorem invS_step (s : Server) (l : Label) (h : InvS s) : InvS (step s l).1 := b
   | bind sid => exact invS_bind s sid h
   | hello sid m => exact invS_hello s sid m h
   | listen sid id kinds uris => exact invS_listen s sid id kinds uris h
+  | listenAck sid id => exact invS_listenAck s sid id h
   | listenEnd sid id => exact invS_listenEnd s sid id h
   | subscribe sid id u => exact invS_subscribe s sid id u h
   | unsubscribe sid u => exact invS_unsubscribe s sid u h
@@ -468,6 +508,7 @@ theorem step_cap (s : Server) (l : Label) : (step s l).1.cap = s.cap := by
   · unfold bind; split <;> rfl
   · unfold hello; split <;> rfl
   · unfold listen; split <;> rfl
+  · unfold listenAck; split; rfl; split; rfl; split <;> rfl
   · unfold listenEnd; split <;> rfl
   · unfold subscribe; split <;> rfl
   · unfold unsubscribe; split <;> rfl
@@ -477,3 +518,91 @@ theorem reach_cap {cap : Kind → Cap} {s : Server} (h : Reach cap s) : s.cap = 
   induction h with
   | init => rfl
   | step l _ ih => rw [step_cap]; exact ih
+
+/-! ### third invariant: the ghost `acked` names live handlers -/
+
+/-- Every acknowledged listen is still a live handler. -/
+def InvA (s : Server) : Prop :=
+  ∀ p ∈ s.acked, ∃ l ∈ s.listens, l.sid = p.1 ∧ l.id = p.2
+
+theorem InvA.frame {s s' : Server} (h : InvA s) (h1 : s'.acked = s.acked) (h2 : s'.listens = s.listens) :
+    InvA s' := by
+  intro p hp; rw [h1] at hp; rw [h2]; exact h p hp
+
+theorem invA_step (s : Server) (l : Label) (h : InvA s) : InvA (step s l).1 := by
+  cases l with
+  | change f e =>
+    refine h.frame ?_ ?_ <;>
+    · simp only [step, change]; split; rfl; split; rfl; simp only [notifyChange]; split
+      · simp only [arm]; split <;> rfl
+      · rfl
+  | tick d => exact h.frame rfl rfl
+  | fireTracked k => refine h.frame ?_ ?_ <;> · simp only [step, fireTracked]; split; split <;> rfl; rfl
+  | fireOrphan k i => refine h.frame ?_ ?_ <;> · simp only [step, fireOrphan]; split; split <;> rfl; rfl
+  | cbrun k => refine h.frame ?_ ?_ <;> · simp only [step, cbrun]; split <;> rfl
+  | bind sid => refine h.frame ?_ ?_ <;> · simp only [step, bind]; split <;> rfl
+  | hello sid m => refine h.frame ?_ ?_ <;> · simp only [step, hello]; split <;> rfl
+  | subscribe a b c => refine h.frame ?_ ?_ <;> · simp only [step, subscribe]; split <;> rfl
+  | unsubscribe a b => refine h.frame ?_ ?_ <;> · simp only [step, unsubscribe]; split <;> rfl
+  | updated u => exact h
+  | listen sid id kinds uris =>
+    simp only [step, listen]
+    split
+    · intro p hp
+      obtain ⟨l0, hl0, h1⟩ := h p hp
+      exact ⟨l0, by simp; exact Or.inl hl0, h1⟩
+    · exact h
+  | listenAck sid id =>
+    simp only [step, listenAck]
+    split
+    · exact h
+    · rename_i l hfind
+      obtain ⟨hl, hsid, hid⟩ := find?_spec hfind
+      split
+      · exact h
+      · rename_i hna
+        split
+        · intro p hp
+          obtain ⟨l0, hl0, h1, h2⟩ := h p hp
+          refine ⟨l0, ?_, h1, h2⟩
+          simp
+          refine ⟨hl0, ?_⟩
+          by_cases e1 : l0.sid = sid
+          · right; intro e2; apply hna
+            have : p = (sid, id) := by rw [← e1, ← e2, h1, h2]
+            rw [← this]; exact hp
+          · exact Or.inl e1
+        · intro p hp
+          simp at hp
+          rcases hp with hp | hp
+          · exact h p hp
+          · exact ⟨l, hl, by rw [hp]; exact hsid, by rw [hp]; exact hid⟩
+  | listenEnd sid id =>
+    simp only [step, listenEnd]
+    split
+    · exact h
+    · intro p hp
+      simp at hp
+      obtain ⟨l0, hl0, h1, h2⟩ := h p hp.1
+      refine ⟨l0, ?_, h1, h2⟩
+      simp
+      refine ⟨hl0, ?_⟩
+      by_cases e1 : l0.sid = sid
+      · right; rw [h2]
+        rcases hp.2 with h3 | h3
+        · exact absurd (by rw [← h1]; exact e1) h3
+        · exact h3
+      · exact Or.inl e1
+  | close sid =>
+    simp only [step, close]
+    intro p hp
+    simp at hp
+    obtain ⟨l0, hl0, h1, h2⟩ := h p hp.1
+    refine ⟨l0, ?_, h1, h2⟩
+    simp
+    exact ⟨hl0, by rw [h1]; exact hp.2⟩
+
+theorem reach_invA {cap : Kind → Cap} {s : Server} (h : Reach cap s) : InvA s := by
+  induction h with
+  | init => intro p hp; simp [init] at hp
+  | step l _ ih => exact invA_step _ l ih
